@@ -99,4 +99,8 @@ def targets():
         if impl == "inv" and test == "complex":
             continue
         ts.append(target_matrix_scaling(impl, test, adm))
+    # shared with C08: the reported pseudo chi-squared of the producers uses the weight computed from the impedance
+    # representation, whatever representation was fitted -- without it the statistic is not invariant under scaling in Y
+    from . import dataflow as DF
+    ts += [DF.target_kk_producer("_use_matrix_inversion", "_inversion_test"), DF.target_kk_producer("_use_least_squares_fitting", "_leastsq_test")]
     return ts
